@@ -115,6 +115,43 @@ theorem get_after_add_str (p : Packet) (hs : p.options.Sorted) (num : Nat) (s : 
   simp only [↓reduceIte, Option.map_some, List.map_append, List.map_cons, List.map_nil, str_roundtrip]
   cases p.getOption num <;> simp
 
+/-- `set_options_as`: the conversion of a whole list -/
+theorem setOptionsUint_go (w : Nat) (hw : Width w) : ∀ (xs : List Nat), (∀ x ∈ xs, x < 256 ^ w) →
+    Packet.setOptionsUint.go w xs = .ok (xs.map minimalBE) := by
+  intro xs
+  induction xs with
+  | nil => intro _; rfl
+  | cons x rest ih =>
+    intro h
+    have hx := h x (List.mem_cons_self ..)
+    unfold Packet.setOptionsUint.go
+    rw [enc_minimal w x hw hx, ih (fun y hy => h y (List.mem_cons_of_mem _ hy))]
+    rfl
+
+/-- `set_options_as` stores exactly the minimal encodings, element by element and in order, replacing
+whatever the option held before (also a longer list), and `get_options_as` returns the same numbers;
+other options are untouched -/
+theorem get_after_set_uint (p : Packet) (num w : Nat) (xs : List Nat)
+    (hw : Width w) (hx : ∀ x ∈ xs, x < 256 ^ w) :
+    ∃ q, p.setOptionsUint num w xs = .ok q ∧
+      q.getOption num = some (xs.map minimalBE) ∧
+      q.getOptionsUint num w = some (xs.map (fun x => .ok x)) ∧
+      (∀ m, m ≠ num → q.getOption m = p.getOption m) := by
+  unfold Packet.setOptionsUint
+  rw [setOptionsUint_go w hw xs hx]
+  refine ⟨_, rfl, ?_, ?_, ?_⟩
+  · simp [Packet.getOption, Packet.setOption, OptMap.get_insert]
+  · simp only [Packet.getOptionsUint, Packet.getOption, Packet.setOption, OptMap.get_insert, ↓reduceIte,
+      Option.map_some, List.map_map]
+    congr 1
+    apply List.map_congr_left
+    intro x hxm
+    have hxb := hx x hxm
+    show optionToUint (minimalBE x) w = .ok x
+    rw [optionToUint_eq, if_pos (minimalBE_length_le x w hxb), beValue_minimalBE]
+  · intro m hm
+    simp [Packet.getOption, Packet.setOption, OptMap.get_insert, hm]
+
 /-- `get_first_option_as` is the head of `get_options_as` -/
 theorem first_is_head_uint (p : Packet) (num w : Nat) :
     p.getFirstOptionUint num w = (p.getOptionsUint num w).bind List.head? := by
